@@ -509,7 +509,12 @@ pub fn check_strict(
   // sizes are judged.)
   let fragile_obj = |o: usize| replace_over_cache[o] || (mode == StrictMode::C10 && replace_over_cache[0]);
   let mut mismatch = |violations: &mut Vec<Violation>, counters: &mut Counters, class: &str, attribution_only: bool, detail: String| {
-    if attribution_only && fragile_obj(judged_obj.get()) && (class == "map" || class == "stream") {
+    // Positional differences of a composite above a cache; for C10 also the
+    // *text* of a replayed stream over such a wrapped tree (the replay cuts
+    // the text at the positions of a map that the tree produced in another
+    // state of its inner cache).
+    let garbled_replay = !attribution_only && mode == StrictMode::C10 && class == "stream";
+    if (attribution_only || garbled_replay) && fragile_obj(judged_obj.get()) && (class == "map" || class == "stream") {
       counters.inc("composite_over_cache_positions");
       violations.push(Violation {
         kind: "composite_over_cache_positions".into(),
